@@ -99,7 +99,7 @@ func (b *Bus) nWrite16_cross(bank byte, addr uint16, value uint16) {
 	ll := byte(value)
 	hh := byte(value >> 8)
 	b.Write[ea>>4](ea, ll)
-	ea++
+	ea = (ea + 1) & 0x00ffffff // wrap on 24bits
 	b.Write[ea>>4](ea, hh)
 	b.M = hh
 }
@@ -108,7 +108,7 @@ func (b *Bus) eaWrite16_cross(ea uint32, value uint16) {
 	ll := byte(value)
 	hh := byte(value >> 8)
 	b.Write[ea>>4](ea, ll)
-	ea++
+	ea = (ea + 1) & 0x00ffffff // wrap on 24bits
 	b.Write[ea>>4](ea, hh)
 	b.M = hh
 }
